@@ -46,7 +46,9 @@ class Compiler:
 
     def __init__(self):
         self.parser = NslParser()
+        self.__CreatePasses()
 
+    def __CreatePasses(self):
         self.astPasses = [
             DebugAst.GetPass(),
             RewriteAssignEqualOperations.GetPass(),
@@ -92,6 +94,11 @@ class Compiler:
         debugParsing = options.get("debug-parsing", False)
         debugPasses = options.get("debug-passes", False)
         optimizations = options.get("optimize", False)
+
+        # The passes keep state of the module they have processed (the scope
+        # with its functions and types, error flags), so every compilation
+        # gets its own set, just like the lowering pass below
+        self.__CreatePasses()
 
         ast = self.parser.Parse(source, debug=debugParsing)
         for i, p in enumerate(self.astPasses):
